@@ -480,6 +480,11 @@ class C15(SmallSuite):
                 if rng.random() < 0.01:
                     # a long series of evaluations at many distinct points on this instance (bounded per-instance caches wrap)
                     ops.append({"op": "burn", "slot": s, "n": rng.randint(1100, 2500), "axis": rng.randrange(5)})
+                if rng.random() < 0.04:
+                    # a burst of evaluations in a small neighbourhood of one point (what a local method does: dozens of
+                    # consecutive requests inside one basin) - self-organising tables must not change any later answer
+                    ops.append({"op": "cluster", "slot": s, "pt": rng.randrange(len(pts[mk])), "n": rng.randint(33, 80),
+                                "radius": rng.choice([1e-3, 1e-2, 1e-5])})
                 if rng.random() < 0.15:
                     o["int_if_integral"] = True     # coordinates that are whole numbers are passed as python/numpy ints
                 v = rng.random()
@@ -570,6 +575,22 @@ class C15(SmallSuite):
                         raise
                     except Exception as e:
                         events.append("evaluate_bad raised %s" % type(e).__name__)
+                elif k == "cluster":
+                    prob = slots.get(op["slot"])
+                    if prob is None:
+                        continue
+                    mk = plan_slot_member(plan, op["slot"])
+                    st = structured[mk]
+                    c0 = pts[mk][op["pt"]]
+                    for j in range(int(op["n"])):
+                        p_ = [min(h, max(l, c + (h - l) * op["radius"] * math.cos(1.0 + 2.399963 * j + 1.3 * i_)))
+                              for i_, (c, l, h) in enumerate(zip(c0, st["lower"], st["upper"]))]
+                        try:
+                            prob.Calculate(Point(np.array(p_, dtype=np.double), []), FunctionValue())
+                        except Exception:
+                            break        # (the centre was an out-of-box request: not judged)
+                    rep.probes["cluster_bursts"] += 1
+                    events.append("cluster %d" % int(op["n"]))
                 elif k == "burn":
                     prob = slots.get(op["slot"])
                     if prob is None:
